@@ -35,7 +35,7 @@ func init() {
 		Quick: 5000, Thorough: 500000,
 		Run:        runC08,
 		Rule:       "one run = one generated (type, value, protocol in {binary strict, binary non-strict, compact}) whose encoding E decodes; evaluations = individual faulted decodes: EOF at every offset of E through bytes.Reader and through the simulated reader (both io.ByteReader flavours), a reader error at every offset (all offsets up to 512 bytes, sampled beyond), chunk schedules, 6 byte substitutions per offset, every length / element count set to negative, oversized and out-of-range values, foreign fields of 12 shapes x 4 undeclared ids at every field boundary of every struct level, trailing bytes, each required field removed, each declared top-level field given another wire type, direct Reader method calls on arbitrary bytes. non-trivial = E has at least 2 bytes; distinct = distinct hash of (type, protocol, E)",
-		FaultKinds: []string{"eof-at-offset(bytes.Reader)", "eof-at-offset(simulated reader)", "eof-at-offset(simulated ByteReader)", "reader-error-at-offset", "chunked-delivery", "rot(byte-substitution)", "size-negative", "size-oversized", "size-out-of-range", "foreign-field", "foreign-field-nested-level", "foreign-field-with-corrupted-size", "trailing-bytes", "required-field-removed", "failed-decode-then-decode", "long-lived-decoder", "large-binary(>64KiB)", "wire-type-changed(strict)", "wire-type-changed(non-strict)", "element-type-changed(strict)", "reader-method-on-arbitrary-bytes", "scaling-probe(n vs 8n elements)", "inflated-count-on-a-long-collection", "protocol:binary", "protocol:binary-nonstrict", "protocol:compact", "cut-inside-length", "data+err"},
+		FaultKinds: []string{"eof-at-offset(bytes.Reader)", "eof-at-offset(simulated reader)", "eof-at-offset(simulated ByteReader)", "reader-error-at-offset", "chunked-delivery", "rot(byte-substitution)", "size-negative", "size-oversized", "size-out-of-range", "foreign-field", "foreign-field-nested-level", "foreign-field-with-corrupted-size", "trailing-bytes", "required-field-removed", "failed-decode-then-decode", "long-lived-decoder", "large-binary(>64KiB)", "nested-required-field-removed", "nested-wire-type-changed(strict)", "wire-type-changed(strict)", "wire-type-changed(non-strict)", "element-type-changed(strict)", "reader-method-on-arbitrary-bytes", "scaling-probe(n vs 8n elements)", "inflated-count-on-a-long-collection", "protocol:binary", "protocol:binary-nonstrict", "protocol:compact", "cut-inside-length", "data+err"},
 		ProbeNames: []string{"messages", "decoder-reset-after-failure", "strict-after-reset-checked", "precondition-failed(skipped)", "struct-levels>1", "E>=128B", "required-fields", "alloc-precise-samples", "eof-k0", "sites", "reference-parse-failed(structural operators skipped)"},
 		Real:       []string{"thrift.Unmarshal, thrift.Decoder (strict and non-strict), binary and compact Readers compiled from /repo's working tree with sync and sync/atomic redirected to the shim (deterministic simulated sync.Pool, pristine library state before every run)"},
 		Model:      []string{"storage/transport medium (fault operators over the encoded bytes)", "io.Reader (simio.Reader with and without io.ByteReader)", "reference thrift parser/serialiser for both protocols (verifsim/ref) used to locate sizes and struct levels and to build foreign fields, removed fields and retyped fields"},
@@ -357,6 +357,81 @@ func thriftIDs(rt reflect.Type) (all map[int]bool, top map[int]bool, required []
 		}
 	}
 	walk(rt, 0)
+	return
+}
+
+// typedLevel pairs a struct level of a parsed encoding with the Go struct type
+// it is decoded into.
+type typedLevel struct {
+	lv *ref.TVal
+	st reflect.Type
+}
+
+func typedLevels(tv *ref.TVal, rt reflect.Type, out *[]typedLevel, depth int) {
+	for rt.Kind() == reflect.Ptr {
+		rt = rt.Elem()
+	}
+	if depth > 12 {
+		return
+	}
+	switch tv.Type {
+	case ref.TStruct:
+		if rt.Kind() != reflect.Struct {
+			return
+		}
+		*out = append(*out, typedLevel{tv, rt})
+		byID := map[int]reflect.Type{}
+		for i := 0; i < rt.NumField(); i++ {
+			parts := strings.Split(rt.Field(i).Tag.Get("thrift"), ",")
+			if id, err := strconv.Atoi(parts[0]); err == nil {
+				byID[id] = rt.Field(i).Type
+			}
+		}
+		for i := range tv.Fields {
+			if ft := byID[int(tv.Fields[i].ID)]; ft != nil {
+				typedLevels(&tv.Fields[i].Val, ft, out, depth+1)
+			}
+		}
+	case ref.TList, ref.TSet:
+		var et reflect.Type
+		switch rt.Kind() {
+		case reflect.Slice, reflect.Array:
+			et = rt.Elem()
+		case reflect.Map:
+			et = rt.Key()
+		default:
+			return
+		}
+		for i := range tv.Elems {
+			typedLevels(&tv.Elems[i], et, out, depth+1)
+		}
+	case ref.TMap:
+		if rt.Kind() != reflect.Map {
+			return
+		}
+		for i := range tv.Keys {
+			typedLevels(&tv.Keys[i], rt.Key(), out, depth+1)
+			typedLevels(&tv.Vals[i], rt.Elem(), out, depth+1)
+		}
+	}
+}
+
+// thriftLevelIDs returns the declared and the required field ids of one struct type.
+func thriftLevelIDs(st reflect.Type) (ids, req map[int]bool) {
+	ids, req = map[int]bool{}, map[int]bool{}
+	for i := 0; i < st.NumField(); i++ {
+		parts := strings.Split(st.Field(i).Tag.Get("thrift"), ",")
+		id, err := strconv.Atoi(parts[0])
+		if err != nil {
+			continue
+		}
+		ids[id] = true
+		for _, o := range parts[1:] {
+			if o == "required" {
+				req[id] = true
+			}
+		}
+	}
 	return
 }
 
@@ -872,6 +947,59 @@ func runC08(r *core.Run) {
 				return
 			}
 			r.Fault("wire-type-changed(non-strict)")
+		}
+		// I3. the same two rules below the top level: in every nested struct level a
+		// required field removed is a MissingField, and (strict mode) a declared
+		// field given another wire type is a TypeMismatch
+		{
+			var tl []typedLevel
+			typedLevels(&tree, ty.rt, &tl, 0)
+			for li, l := range tl {
+				if li == 0 || li > 16 {
+					continue
+				}
+				ids, req := thriftLevelIDs(l.st)
+				for fi := range l.lv.Fields {
+					f := l.lv.Fields[fi]
+					if !ids[int(f.ID)] {
+						continue
+					}
+					if req[int(f.ID)] {
+						saved := l.lv.Fields
+						nf := append(append([]ref.TField(nil), saved[:fi]...), saved[fi+1:]...)
+						l.lv.Fields = nf
+						m := ref.ThriftAppend(nil, &tree, compact, stop3)
+						l.lv.Fields = saved
+						_, err, ok := c.decode(m, c08Mode{}, "nested-required-removed")
+						if !ok {
+							return
+						}
+						r.Fault("nested-required-field-removed")
+						var mf *thrift.MissingField
+						if !errors.As(err, &mf) {
+							fail("missing-field", "missing-nested-required-not-reported", m, "missing-field", "required field %d removed from nested struct level %d (%s): expected *thrift.MissingField, got %v (%s, type %s)\ninput=%x", f.ID, li, l.st, err, thriftProtoNames[pi], ty.name, clip(m, 300))
+							return
+						}
+					}
+					repl := ref.TVal{Type: ref.TBinary, Bin: []byte("retyped")}
+					if f.Val.Type == ref.TBinary {
+						repl = ref.TVal{Type: ref.TI32, I: 7}
+					}
+					l.lv.Fields[fi].Val = repl
+					m := ref.ThriftAppend(nil, &tree, compact, stop3)
+					l.lv.Fields[fi] = f
+					_, err, ok := c.decode(m, c08Mode{strict: true, decoder: true}, "nested-wire-type-changed")
+					if !ok {
+						return
+					}
+					r.Fault("nested-wire-type-changed(strict)")
+					var tm *thrift.TypeMismatch
+					if !errors.As(err, &tm) {
+						fail("type-mismatch", "nested-type-mismatch-not-reported", m, "type-mismatch(strict)", "field %d of nested struct level %d (%s, thrift type %d) encoded with thrift type %d: strict decoding returned %v instead of *thrift.TypeMismatch (%s, type %s)\ninput=%x", f.ID, li, l.st, f.Val.Type, repl.Type, err, thriftProtoNames[pi], ty.name, clip(m, 300))
+						return
+					}
+				}
+			}
 		}
 		// I2. the elements (keys, values) of a declared non-empty collection given
 		// another wire type, all of them well-formed
